@@ -1072,10 +1072,10 @@ def search(ctx, broken):
 
 def replay(ctx, rec):
     c = rec["case"]
-    if "cell" in c:
-        run_cells(ctx, [dict(c["cell"], kind="replay")])
-    elif "saveload" in c:
+    if "saveload" in c:
         saveload_check(ctx)
+    elif "cell" in c:
+        run_cells(ctx, [dict(c["cell"], kind="replay")])
     elif "getter_history" in c:
         run_getter_histories(ctx, [c["getter_history"]])
     else:
